@@ -43,6 +43,7 @@ inductive Err where
   | badField         -- ValueError: '.' count of the left-hand side is not 1
   | notAChoice       -- ValueError from Config.check
   | valueType        -- TypeError('option values must be strings') when saving None
+  | dupOption        -- configparser.DuplicateOptionError: two fields with one lower-cased name when saving
   deriving DecidableEq, Repr, Inhabited
 
 /-- Python numeral functions -/
@@ -70,6 +71,16 @@ def ahas {α : Type} (k : String) (l : List (String × α)) : Bool := (aget k l)
 def isWs (c : Char) : Bool :=
   c = ' ' || c = '\t' || c = '\n' || c = '\r' || c = Char.ofNat 11 || c = Char.ofNat 12 ||
     (28 ≤ c.toNat && c.toNat ≤ 31)
+
+/-- white space skipped by `int()` / `float()` on an ASCII string (C `isspace`) -/
+def isWsNum (c : Char) : Bool :=
+  c = ' ' || c = '\t' || c = '\n' || c = '\r' || c = Char.ofNat 11 || c = Char.ofNat 12
+
+def lstripNum : List Char → List Char
+  | [] => []
+  | c :: r => if isWsNum c then lstripNum r else c :: r
+
+def stripNumL (l : List Char) : List Char := (lstripNum (lstripNum l).reverse).reverse
 
 def lstrip : List Char → List Char
   | [] => []
@@ -112,7 +123,7 @@ def digitsVal : List Char → Nat → Bool → Option Nat
     else none
 
 def pyIntL (l : List Char) : Option Int :=
-  match stripL l with
+  match stripNumL l with
   | '-' :: r => (digitsVal r 0 false).map (fun n => - (Int.ofNat n))
   | '+' :: r => (digitsVal r 0 false).map Int.ofNat
   | r => (digitsVal r 0 false).map Int.ofNat
@@ -162,7 +173,7 @@ def isDecimalFloat (l : List Char) : Bool :=
     | none => false
 
 def isPyFloatL (l : List Char) : Bool :=
-  let s := stripL l
+  let s := stripNumL l
   let body := match s with
     | '+' :: r => r
     | '-' :: r => r
@@ -392,21 +403,23 @@ def printVal (N : Numerals F) : Val F → Except Err String
   | .bool b => .ok (if b then "True" else "False")
   | .none => .error Err.valueType
 
-/-- the section written for one config: the CACHE (as_dict()), keys lower-cased, later duplicates
-of a lower-cased key are not modelled (configparser raises DuplicateOptionError) -/
-def saveKVs (N : Numerals F) : List (String × Val F) → Except Err Sect
-  | [] => .ok []
-  | (k, v) :: r =>
-    match printVal N v with
-    | .error e => .error e
-    | .ok t =>
-      match saveKVs N r with
+/-- the section written for one config (`read_dict`): keys lower-cased, values printed; `seen` = the
+lower-cased keys already written (a repeated one raises DuplicateOptionError before its value is looked at) -/
+def saveKVs (N : Numerals F) : List (String × Val F) → List String → Except Err Sect
+  | [], _ => .ok []
+  | (k, v) :: r, seen =>
+    if seen.contains (lower k) then .error Err.dupOption
+    else
+      match printVal N v with
       | .error e => .error e
-      | .ok s => .ok ((lower k, t) :: s)
+      | .ok t =>
+        match saveKVs N r (lower k :: seen) with
+        | .error e => .error e
+        | .ok s => .ok ((lower k, t) :: s)
 
 def Cfg.saveSect (N : Numerals F) (c : Cfg F) : Except Err (Cfg F × Sect) :=
   let c' := c.asDict false
-  match saveKVs N c'.cache with
+  match saveKVs N c'.cache [] with
   | .error e => .error e
   | .ok s => .ok (c', s)
 
